@@ -18,6 +18,8 @@ for d in sorted(os.listdir(os.path.join(V, "seeded"))):
     ok = all(conf.get(k) for k in ("patch_applies_on_repo_head", "demo_passes_without_change", "builds_with_change", "demo_fails_with_change"))
     caught = ", ".join("%s (%s, %ss)" % (c, r.get("tier"), int(r.get("wall_s", 0))) for c, r in m.get("checks_run", {}).items() if r.get("exit") == 1) or "—"
     missed = ", ".join(c for c, r in m.get("checks_run", {}).items() if r.get("exit") != 1) or ""
+    if m.get("not_realisable"):
+        missed = (missed + " - " if missed else "") + "cannot manifest on the real stack, see 8.2"
     rows.append("| %s | %s | %s | %s | %s | %s |" % (d, m.get("property"), needs.replace("|", "/")[:220], "yes" if ok else "no", caught, missed))
 table = "### 8.1 Seeded changes\n\n| seed | property | change (needs to manifest: see seeded/<seed>/README.md) | confirmed | caught by | run but silent |\n|---|---|---|---|---|---|\n" + "\n".join(rows) + "\n"
 p = os.path.join(V, "DESIGN.md")
